@@ -12,10 +12,15 @@ git apply --check $S/patch.diff && git apply $S/patch.diff && echo "patch applie
 if cmake --build _build -j${JOBS:-8} >/tmp/confirm_build.log 2>&1; then echo "test suite builds with the change"; else echo "TEST SUITE DOES NOT BUILD"; tail -20 /tmp/confirm_build.log; fi
 ctest --test-dir _build -j8 --timeout 900 2>&1 | tail -3
 INC="-I/usr/include/eigen3"
-g++ -std=c++11 -O1 -I$W/include -I$W/external/tl $INC $S/demo.cpp -o /tmp/confirm_demo_mod 2>&1 | tail -5
+if [ -f $S/run_demo.sh ]; then
+  bash $S/run_demo.sh $W > /tmp/confirm_demo_mod.out 2>&1; echo "demo on modified tree: exit $?"; tail -4 /tmp/confirm_demo_mod.out
+  bash $S/run_demo.sh /repo > /tmp/confirm_demo_orig.out 2>&1; echo "demo on unmodified tree: exit $?"; tail -2 /tmp/confirm_demo_orig.out
+else
+g++ -std=c++11 -O1 -pthread -I$W/include -I$W/external/tl $INC $S/demo.cpp -o /tmp/confirm_demo_mod 2>&1 | tail -5
 /tmp/confirm_demo_mod > /tmp/confirm_demo_mod.out 2>&1; echo "demo on modified tree: exit $?"; tail -4 /tmp/confirm_demo_mod.out
-g++ -std=c++11 -O1 -I/repo/include -I/repo/external/tl $INC $S/demo.cpp -o /tmp/confirm_demo_orig 2>&1 | tail -5
+g++ -std=c++11 -O1 -pthread -I/repo/include -I/repo/external/tl $INC $S/demo.cpp -o /tmp/confirm_demo_orig 2>&1 | tail -5
 /tmp/confirm_demo_orig > /tmp/confirm_demo_orig.out 2>&1; echo "demo on unmodified tree: exit $?"; tail -2 /tmp/confirm_demo_orig.out
+fi
 git checkout -- .
 rm -f /tmp/confirm_demo_mod /tmp/confirm_demo_orig
 } > $S/confirm.log 2>&1
